@@ -567,7 +567,38 @@ func (g *FuncGen) evalCall(n *Node, env *Env) (Val, error) {
 			return Val{parts[0], tBool}, nil
 		}
 		return Val{"(and " + strings.Join(parts, " ") + ")", tBool}, nil
+	case "s_byte": // s_byte(s, i): the byte at index i of s
+		a, err := args()
+		if err != nil {
+			return Val{}, err
+		}
+		if len(a) != 2 {
+			return Val{}, fmt.Errorf("s_byte takes 2 arguments")
+		}
+		return Val{g.strByte(a[0].Term, a[1].Term), tInt}, nil
 	case "s_concat", "s_contains", "s_hasprefix", "s_hassuffix", "s_indexof", "s_toint", "s_fromint", "s_isdigits", "s_substr", "s_inre", "s_replaceall":
+		if !g.w.useStrings && (n.Name == "s_concat" || n.Name == "s_substr" || n.Name == "s_isdigits") {
+			// byte-level model (default mode): strings are a length and a byte function
+			a, err := args()
+			if err != nil {
+				return Val{}, err
+			}
+			for _, x := range a {
+				if (n.Name == "s_concat" || n.Name == "s_substr") && (strings.Contains(x.Term, "|sp:") || strings.Contains(x.Term, "|rp:")) {
+					return Val{}, fmt.Errorf("%s inside a spec function body needs the string theory (byte-level model: use a contract-level let)", n.Name)
+				}
+			}
+			switch {
+			case n.Name == "s_concat" && len(a) == 2:
+				return Val{g.strConcat(a[0].Term, a[1].Term), tStr}, nil
+			case n.Name == "s_substr" && len(a) == 3:
+				return Val{g.strSubstr(a[0].Term, a[1].Term, a[2].Term), tStr}, nil
+			case n.Name == "s_isdigits" && len(a) == 1:
+				bt := g.strByte(a[0].Term, "i")
+				return Val{fmt.Sprintf("(and (>= (strlen %s) 1) (forall ((i Int)) (! (=> (and (<= 0 i) (< i (strlen %s))) (and (<= 48 %s) (<= %s 57))) :pattern (%s))))", a[0].Term, a[0].Term, bt, bt, bt), tBool}, nil
+			}
+			return Val{}, fmt.Errorf("%s: wrong number of arguments", n.Name)
+		}
 		if !g.w.useStrings {
 			return Val{}, fmt.Errorf("%s needs the string theory (add `strings` to the contract)", n.Name)
 		}
@@ -806,6 +837,7 @@ func (g *FuncGen) ensureSpecDefined(sf *SpecFunc) error {
 	} else {
 		v, err := g.eval(sf.Body, e2)
 		if err != nil {
+			delete(g.declared, q(key)) // not defined: a later use must fail the same way
 			return fmt.Errorf("spec %s: %v", sf.Name, err)
 		}
 		v2, _ := g.unify(v, Val{"", rt})
